@@ -396,6 +396,7 @@ Section IndexEmission.
   Proof.
     intros cfg st H. unfold w_new in H.
     destruct (N.leb_spec 16777216 (c_block_size cfg)) as [B|B]; [discriminate|].
+    destruct (block_too_small cfg) eqn:TS; [discriminate|].
     injection H as <-. unfold guard_inv.
     cbn [set_bw upd w_cfg w_index w_next w_bw cfg_defaults c_block_size]. repeat split.
     - destruct (c_block_size cfg =? 0); lia.
